@@ -330,10 +330,17 @@ def mgda(index, ctx, A, by_class):
     cfg = cfg_of(fi.node)
     gname = None
     step_fn = None  # (FunctionInfo, cfg) of a helper that returns the step size, when the choice is not inlined in the loop
+
+    def has_div(e):
+        """The expression is, or selects (conditional expression) among alternatives one of which is, a quotient."""
+        if isinstance(e, ast.IfExp):
+            return has_div(e.body) or has_div(e.orelse)
+        return isinstance(e, ast.BinOp) and isinstance(e.op, ast.Div)
+
     for n in names_read(u.value):
         for s2 in ast.walk(loop):
             if isinstance(s2, ast.Assign) and isinstance(s2.targets[0], ast.Name) and s2.targets[0].id == n:
-                if isinstance(s2.value, ast.BinOp) and isinstance(s2.value.op, ast.Div):
+                if has_div(s2.value):
                     gname = n
                 elif isinstance(s2.value, ast.Call):
                     f = s2.value.func
@@ -345,50 +352,65 @@ def mgda(index, ctx, A, by_class):
                         callee = r2[1] if r2 else None
                     from ..index import FunctionInfo
 
-                    if isinstance(callee, FunctionInfo) and any(isinstance(r3, ast.Return) and isinstance(r3.value, ast.BinOp) and isinstance(r3.value.op, ast.Div) for r3 in ast.walk(callee.node)):
+                    if isinstance(callee, FunctionInfo) and any(isinstance(r3, ast.Return) and r3.value is not None and has_div(r3.value) for r3 in ast.walk(callee.node)):
                         gname = n
                         step_fn = (callee, cfg_of(callee.node), s2.value)
     if gname is None:
         ctx.undecided("R5", "MGDA: step size", "closed-form step size assignment not recognised", _loc(fi, loop))
     else:
         if step_fn is None:
-            scfg, sfi, rename = cfg, fi, {}
-            closed = [(nd, nd.ast.value) for nd in cfg.stmt_nodes() if nd.kind == "stmt" and isinstance(nd.ast, ast.Assign) and isinstance(nd.ast.targets[0], ast.Name) and nd.ast.targets[0].id == gname
-                      and isinstance(nd.ast.value, ast.BinOp) and isinstance(nd.ast.value.op, ast.Div)]
-            consts = [nd.ast.value.value for nd in cfg.stmt_nodes() if nd.kind == "stmt" and isinstance(nd.ast, ast.Assign) and isinstance(nd.ast.targets[0], ast.Name)
-                      and nd.ast.targets[0].id == gname and isinstance(nd.ast.value, ast.Constant)]
+            scfg, sfi = cfg, fi
+            sites = [(nd, nd.ast.value) for nd in cfg.stmt_nodes() if nd.kind == "stmt" and isinstance(nd.ast, ast.Assign) and isinstance(nd.ast.targets[0], ast.Name) and nd.ast.targets[0].id == gname
+                     and any(nd.ast is x for x in ast.walk(loop))]
         else:
             sfi, scfg, call = step_fn
             ctx.analysed(sfi.qualname)
-            closed = [(nd, nd.ast.value) for nd in scfg.stmt_nodes() if isinstance(nd.ast, ast.Return) and isinstance(nd.ast.value, ast.BinOp) and isinstance(nd.ast.value.op, ast.Div)]
-            consts = [nd.ast.value.value for nd in scfg.stmt_nodes() if isinstance(nd.ast, ast.Return) and isinstance(nd.ast.value, ast.Constant)]
-            other = [nd for nd in scfg.stmt_nodes() if isinstance(nd.ast, ast.Return) and not isinstance(nd.ast.value, ast.Constant) and not (isinstance(nd.ast.value, ast.BinOp) and isinstance(nd.ast.value.op, ast.Div))]
-            if other:
-                ctx.undecided("R5", "MGDA: step size", f"`{norm_text(other[0].ast)}` in {sfi.short} is neither a constant nor the closed form", sfi.loc(other[0].ast))
-        for nd, val in closed:
+            sites = [(nd, nd.ast.value) for nd in scfg.stmt_nodes() if isinstance(nd.ast, ast.Return) and nd.ast.value is not None]
+
+        def leaves(e, conds):
+            """(leaf expression, [(condition, truth)]) of a tree of conditional expressions."""
+            if isinstance(e, ast.IfExp):
+                yield from leaves(e.body, conds + implied_conditions(e.test, "True"))
+                yield from leaves(e.orelse, conds + implied_conditions(e.test, "False"))
+            else:
+                yield e, conds
+
+        closed, consts = [], []
+        for nd, val in sites:
+            stmt_conds = []
+            for t, lbl in scfg.guards_of(nd):
+                if t.kind == "test" and isinstance(t.ast, ast.If):
+                    stmt_conds += implied_conditions(t.ast.test, lbl)
+            for leaf, conds in leaves(val, stmt_conds):
+                if isinstance(leaf, ast.Constant):
+                    consts.append(leaf.value)
+                elif isinstance(leaf, ast.BinOp) and isinstance(leaf.op, ast.Div):
+                    closed.append((nd, leaf, conds))
+                else:
+                    ctx.undecided("R5", "MGDA: step size", f"`{norm_text(leaf)}` is neither a constant nor the closed form", sfi.loc(nd.ast) if step_fn else _loc(fi, nd.ast))
+        for nd, val, conds in closed:
             num, den = val.left, val.right
             pn, pd = expr_poly(num), expr_poly(den)
             facts = []
-            for t, lbl in scfg.guards_of(nd):
-                if t.kind == "test" and isinstance(t.ast, ast.If):
-                    for c, tr in implied_conditions(t.ast.test, lbl):
-                        if isinstance(c, ast.Compare) and len(c.ops) == 1:
-                            l, r = expr_poly(c.left), expr_poly(c.comparators[0])
-                            if l is None or r is None:
-                                continue
-                            op = type(c.ops[0])
-                            # normalise to "poly > 0"
-                            if (op is ast.LtE and not tr) or (op is ast.Gt and tr):
-                                facts.append(l - r)
-                            elif (op is ast.GtE and not tr) or (op is ast.Lt and tr):
-                                facts.append(r - l)
+            for c, tr in conds:
+                if isinstance(c, ast.Compare) and len(c.ops) == 1:
+                    l, r = expr_poly(c.left), expr_poly(c.comparators[0])
+                    if l is None or r is None:
+                        continue
+                    op = type(c.ops[0])
+                    # normalise to "poly > 0"
+                    if (op is ast.LtE and not tr) or (op is ast.Gt and tr):
+                        facts.append(l - r)
+                    elif (op is ast.GtE and not tr) or (op is ast.Lt and tr):
+                        facts.append(r - l)
             pos_num = pn is not None and any(f == pn for f in facts)
             pos_rest = pn is not None and pd is not None and any(f == pd - pn for f in facts)
             ctx.require(pos_num and pos_rest, "R5", "MGDA: closed-form step size lies in (0, 1)", f"guards imply {pn} > 0 and {pd - pn if pd is not None and pn is not None else '?'} > 0",
-                        f"`{norm_text(nd.ast)}` is used on a branch where " + ("; ".join(x for x, ok in ((f"{pn} > 0 is not guaranteed (step could be negative)", pos_num),
-                                                                                                      (f"{pd - pn if pd is not None and pn is not None else '?'} > 0 is not guaranteed (step could exceed 1: the iterate leaves the simplex)", pos_rest)) if not ok)),
+                        f"`{norm_text(val)}` is used on a branch where " + ("; ".join(x for x, ok in ((f"{pn} > 0 is not guaranteed (step could be negative)", pos_num),
+                                                                                                   (f"{pd - pn if pd is not None and pn is not None else '?'} > 0 is not guaranteed (step could exceed 1: the iterate leaves the simplex)", pos_rest)) if not ok)),
                         sfi.loc(nd.ast) if step_fn else _loc(fi, nd.ast), derivation={"facts": [repr(f) for f in facts]})
-        ctx.require(all(isinstance(c, (int, float)) and 0 <= c <= 1 for c in consts), "R5", "MGDA: constant step sizes lie in [0, 1]", f"constants {consts}", f"constant step sizes {consts}", _loc(fi, loop))
+        ctx.require(bool(closed) and all(isinstance(c, (int, float)) and not isinstance(c, bool) and 0 <= c <= 1 for c in consts), "R5", "MGDA: constant step sizes lie in [0, 1]", f"constants {consts}",
+                    f"constant step sizes {consts}" if closed else "no closed-form step size found", _loc(fi, loop))
     # early exits of the optimisation loop
     exits = [nd for nd in cfg.stmt_nodes() if isinstance(nd.ast, (ast.Break, ast.Return)) and any(nd.ast is x for x in ast.walk(loop))]
     runs = by_class.get("MGDA", [])
